@@ -287,7 +287,7 @@ func c17(e *Env) {
 				evilTokens[tok] = true
 				var outs []world.Outcome
 				for k := 0; k < len(w.Nodes)+1; k++ {
-					outs = append(outs, world.Outcome{Kind: world.OutHostile, Name: "hostile", Hostile: c.Choose("hostilekind", len(world.HostileKinds))})
+					outs = append(outs, world.Outcome{Kind: world.OutHostile, Name: "hostile", Hostile: c.Choose("hostilekind", len(world.HostileKinds)) + len(world.HostileKinds)*c.Choose("hostilevariant", 128)})
 				}
 				w.Script[tok] = outs
 			}
